@@ -207,6 +207,20 @@ def check_wrap(lines):
             bad.append((IMPLICIT[1][0], ('wrap:second-call-with-the-same-config-differs', dict(abbr=IMPLICIT[1][0], lines=lines, first=o1, second=o2, text_after=cfg_.get('text')))))
     except Exception as e:
         bad.append((IMPLICIT[1][0], ('wrap:exception:%s' % type(e).__name__, dict(lines=lines, error=str(e)[:120]))))
+    # ... also when the call in between failed while an alias was being resolved (the text is set aside during that step)
+    cfg_ = {'text': list(lines), 'options': dict(NOFMT), 'snippets': {'zbad': 'ol[title="', 'zout': 'div>zbad'}}
+    try:
+        o1 = expand(IMPLICIT[1][0], cfg_)
+        for failing in ('zbad>li*', 'zout+p'):
+            try:
+                expand(failing, cfg_)
+            except Exception:
+                pass
+        o2 = expand(IMPLICIT[1][0], cfg_)
+        if o1 != o2 or cfg_.get('text') != list(lines):
+            bad.append((IMPLICIT[1][0], ('wrap:call-after-a-failed-call-with-the-same-config-differs', dict(abbr=IMPLICIT[1][0], lines=lines, first=o1, second=o2, text_after=cfg_.get('text')))))
+    except Exception as e:
+        bad.append((IMPLICIT[1][0], ('wrap:exception:%s' % type(e).__name__, dict(lines=lines, error=str(e)[:120]))))
     whole = '\n'.join(lines).strip()
     if len(clean) >= 1:
         # the same lines supplied as ONE string: either reading is accepted (a single text -> one copy holding all of it; or its
